@@ -138,57 +138,57 @@ func (s *Solver) solve(o *Obligation, expectSat bool) *SolveResult {
 		}
 		return res
 	}
-	// stage 0: pointwise-grounded query without the instantiated quantified facts
+	// race: all three back ends start together on every stage; the first unsat wins and cancels the others
+	// (z3 4.8.12 times out on many queries the other two decide in 0.1 s, and the reverse also happens)
+	race := func(f string, t time.Duration) (status, backend, out string, secs float64) {
+		type ans struct {
+			backend, out string
+			secs         float64
+		}
+		ch := make(chan ans, 3)
+		ctx2, cancel := context.WithCancel(ctx)
+		defer cancel()
+		backends := []string{"z3", "z3-new", "cvc5"}
+		for _, b := range backends {
+			go func(b string) {
+				o, sec := runSolver(ctx2, b, nil, f, t)
+				ch <- ans{b, o, sec}
+			}(b)
+		}
+		status = "unknown"
+		for range backends {
+			a := <-ch
+			s.record(a.backend, a.secs)
+			if a.secs > secs {
+				secs = a.secs
+			}
+			switch firstLine(a.out) {
+			case "unsat":
+				return "unsat", a.backend, a.out, a.secs
+			case "sat":
+				status, backend, out = "sat", a.backend, a.out
+			default:
+				if status == "unknown" {
+					out += "[" + a.backend + "] " + firstLine(a.out) + "\n"
+				}
+			}
+		}
+		return
+	}
+	// stage 0: pointwise-grounded query without the instantiated quantified facts (a weaker hypothesis set: only
+	// unsat means something)
 	if gtext := o.smtMode(false, true); gtext != "" {
 		gfile := strings.TrimSuffix(file, ".smt2") + "_ground.smt2"
 		os.WriteFile(gfile, []byte(gtext), 0o644)
-		out, secs := runSolver(ctx, "z3", nil, gfile, s.quickT)
-		s.record("z3", secs)
-		if firstLine(out) == "unsat" {
-			res.Status, res.Backend, res.Output, res.Secs = "unsat", "z3", out, secs
+		if st, b, out, secs := race(gfile, s.quickT); st == "unsat" {
+			res.Status, res.Backend, res.Output, res.Secs = "unsat", b, out, secs
 			return res
 		}
 	}
-	out, secs := runSolver(ctx, "z3", nil, file, s.quickT)
-	s.record("z3", secs)
-	res.Output, res.Secs, res.Backend = out, secs, "z3"
-	switch firstLine(out) {
-	case "unsat":
-		res.Status = "unsat"
+	st, b, out, secs := race(file, s.fullT)
+	res.Status, res.Backend, res.Output, res.Secs = st, b, out, secs
+	if st == "unsat" {
 		return res
-	case "sat":
-		res.Status = "sat"
-	}
-	// second stage: z3-new and cvc5 in parallel
-	type ans struct {
-		backend string
-		out     string
-		secs    float64
-	}
-	ch := make(chan ans, 2)
-	ctx2, cancel := context.WithCancel(ctx)
-	defer cancel()
-	for _, b := range []string{"z3-new", "cvc5"} {
-		go func(b string) {
-			out, secs := runSolver(ctx2, b, nil, file, s.fullT)
-			ch <- ans{b, out, secs}
-		}(b)
-	}
-	for i := 0; i < 2; i++ {
-		a := <-ch
-		s.record(a.backend, a.secs)
-		switch firstLine(a.out) {
-		case "unsat":
-			res.Status, res.Backend, res.Output = "unsat", a.backend, a.out
-			res.Secs += a.secs
-			return res
-		case "sat":
-			res.Status, res.Backend, res.Output = "sat", a.backend, a.out
-		default:
-			if res.Status == "unknown" {
-				res.Output += "\n[" + a.backend + "] " + firstLine(a.out)
-			}
-		}
 	}
 	if res.Status == "sat" {
 		// fetch values of the interesting terms from z3-new
